@@ -1,7 +1,7 @@
 (* C17 - abstract transaction model of ConfigObjectUtility::CreateObject / DeleteObject(Helper) over the
-   three stores {objects; config items; files of the _api package}, and the executable oracle that is
-   run over the IMPLEMENTATION's observations.  No proofs here. *)
-From Icv Require Import Base.Tac Cw.CwModel.
+   three stores {objects; config items; files of the _api package - one file per runtime object, WITH its
+   content}, and the executable oracle that is run over the IMPLEMENTATION's observations.  No proofs here. *)
+From Icv Require Import Base.Tac Facts.Facts_c17 Cw.CwModel.
 From Coq Require Import NArith.
 Local Open Scope N_scope.
 
@@ -10,12 +10,24 @@ Definition cw_keq (a b : cw_key) : bool := cw_beq (fst a) (fst b) && cw_beq (snd
 Definition cw_kmem (k : cw_key) (l : list cw_key) : bool := existsb (cw_keq k) l.
 Definition cw_kremove (k : cw_key) (l : list cw_key) : list cw_key := filter (fun x => negb (cw_keq k x)) l.
 
+(* a file below api/packages/_api/<stage>/conf.d: which object it declares and its bytes *)
+Definition cw_file := (cw_key * cw_bytes)%type.
+Definition cw_fmem (k : cw_key) (l : list cw_file) : bool := existsb (fun f => cw_keq k (fst f)) l.
+Definition cw_fget (k : cw_key) (l : list cw_file) : option cw_bytes :=
+  match find (fun f => cw_keq k (fst f)) l with Some f => Some (snd f) | None => None end.
+Definition cw_fremove (k : cw_key) (l : list cw_file) : list cw_file := filter (fun f => negb (cw_keq k (fst f))) l.
+
 Record cw_obj := { co_key : cw_key; co_runtime : bool; co_deps : list cw_key }.
-Record cw_store := { cs_objs : list cw_obj; cs_items : list cw_key; cs_files : list cw_key }.
+Record cw_store := { cs_objs : list cw_obj; cs_items : list cw_key; cs_files : list cw_file }.
 Definition cw_store0 : cw_store := {| cs_objs := []; cs_items := []; cs_files := [] |}.
 
 Definition cw_find (k : cw_key) (st : cw_store) : option cw_obj := find (fun o => cw_keq k (co_key o)) (cs_objs st).
 Definition cw_oremove (k : cw_key) (l : list cw_obj) : list cw_obj := filter (fun o => negb (cw_keq k (co_key o))) l.
+
+(* which registry the "Object ... already exists" pre-check of CreateObject consults (regenerated fact):
+   true = the OBJECT registry of the type (ConfigType::GetObject(fullName)) - every type, composite names included;
+   false = the config ITEM registry (ConfigItem::GetByTypeAndName), which does not know the items of composite-name types *)
+Definition cw_src_precheck_object : bool := match f_cw_precheck_by_object with Some b => b | None => true end.
 
 (* how compile / evaluate / commit of the written file went - an input of the model *)
 Inductive cw_outcome :=
@@ -26,14 +38,17 @@ Inductive cw_outcome :=
 
 Inductive cw_res := CwrOk | CwrFail | CwrNoSuch.
 
-(* nc: the type has a NameComposer - its items live in m_UnnamedItems and leave it at commit *)
-Definition cw_create (st : cw_store) (ty full : cw_bytes) (nc : bool) (o : cw_outcome) : cw_store * cw_res :=
+(* nc: the type has a NameComposer - its items live in m_UnnamedItems and leave it at commit.
+   byobj: the pre-check asks the object registry (see cw_src_precheck_object).  content: the bytes CreateObjectConfig produced. *)
+Definition cw_create_m (byobj : bool) (st : cw_store) (ty full : cw_bytes) (nc : bool) (content : cw_bytes) (o : cw_outcome)
+  : cw_store * cw_res :=
   let k := (ty, full) in
-  match cw_find k st with
-  | Some _ => (st, CwrFail)                                           (* "Object ... already exists." *)
-  | None =>
-      let st1 := {| cs_objs := cs_objs st; cs_items := cs_items st; cs_files := k :: cs_files st |} in   (* AtomicFile::Write *)
-      let undo (s : cw_store) := {| cs_objs := cs_objs s; cs_items := cs_items s; cs_files := cw_kremove k (cs_files s) |} in
+  if (if byobj then match cw_find k st with Some _ => true | None => false end else cw_kmem k (cs_items st))
+  then (st, CwrFail)                                                  (* "Object ... already exists." *)
+  else
+      (* AtomicFile::Write: creates the file or REPLACES the bytes of an existing one *)
+      let st1 := {| cs_objs := cs_objs st; cs_items := cs_items st; cs_files := (k, content) :: cw_fremove k (cs_files st) |} in
+      let undo (s : cw_store) := {| cs_objs := cs_objs s; cs_items := cs_items s; cs_files := cw_fremove k (cs_files s) |} in
       match o with
       | CwoCompileErr | CwoEvalErr => (undo st1, CwrFail)              (* Defer removeConfigPath *)
       | CwoCommitErr => (undo st1, CwrFail)                            (* CommitItems: every new item Unregister()ed *)
@@ -51,8 +66,8 @@ Definition cw_create (st : cw_store) (ty full : cw_bytes) (nc : bool) (o : cw_ou
               (* `ctype->GetObject(fullName)`: only then removeConfigPath.Cancel() *)
               if cw_beq eff full then (st2, CwrOk) else (undo st2, CwrOk)
           end
-      end
-  end.
+      end.
+Definition cw_create := cw_create_m cw_src_precheck_object.
 
 (* an object loaded from ordinary configuration (package <> _api) *)
 Definition cw_add_static (st : cw_store) (k : cw_key) (nc : bool) (deps : list cw_key) : cw_store :=
@@ -75,7 +90,7 @@ Fixpoint cw_del_helper (fuel : nat) (k : cw_key) (st : cw_store) : cw_store :=
           let st1 := fold_left (fun s c => cw_del_helper f c s) (cw_children k st) st in
           {| cs_objs := cw_oremove k (cs_objs st1);
              cs_items := cw_kremove k (cs_items st1);
-             cs_files := if co_runtime o then cw_kremove k (cs_files st1) else cs_files st1 |}
+             cs_files := if co_runtime o then cw_fremove k (cs_files st1) else cs_files st1 |}
       end
   end.
 
@@ -99,9 +114,9 @@ Definition cw_flags_none : cw_flags := {| fl_obj := false; fl_active := false; f
 Definition cw_flags_of (st : cw_store) (k : cw_key) : cw_flags :=
   match cw_find k st with
   | Some o => {| fl_obj := true; fl_active := true; fl_runtime := co_runtime o; fl_item := cw_kmem k (cs_items st);
-                 fl_file := cw_kmem k (cs_files st) |}
+                 fl_file := cw_fmem k (cs_files st) |}
   | None => {| fl_obj := false; fl_active := false; fl_runtime := false; fl_item := cw_kmem k (cs_items st);
-               fl_file := cw_kmem k (cs_files st) |}
+               fl_file := cw_fmem k (cs_files st) |}
   end.
 
 (* numeric equality of decimal expansions *)
@@ -186,44 +201,87 @@ Fixpoint cw_orc_attrs (supplied got : cw_dlist) : N :=
   | _, _ => 3
   end.
 
-(* create: [pre]/[post] flags of the target, counts of objects and files, globals / other objects untouched *)
+(* ---------------------------------------------------------------- the file tree of the package *)
+(* what vdrive lists below api/packages/_api after every operation: one entry per .conf file - which object's
+   file it is (by path) and a digest of its bytes *)
+Definition cw_ftree := list cw_file.
+Definition cw_feqb (a b : cw_file) : bool := cw_keq (fst a) (fst b) && cw_beq (snd a) (snd b).
+Fixpoint cw_ftree_eqb (a b : cw_ftree) : bool :=
+  match a, b with [], [] => true | x :: a', y :: b' => cw_feqb x y && cw_ftree_eqb a' b' | _, _ => false end.
+(* the tree of a model state, in the order of the tracked (type, name) pairs *)
+Definition cw_ftree_of (tracked : list cw_key) (st : cw_store) : cw_ftree :=
+  flat_map (fun k => match cw_fget k (cs_files st) with Some c => [(k, c)] | None => [] end) tracked.
+
+(* create: [pre]/[post] flags of the target, counts of objects and files, globals / other objects untouched,
+   the file tree before and after, the bytes CreateObjectConfig generated (when the glue can tell) *)
 Record cw_cobs := {
   cb_ok : bool; cb_pre : cw_flags; cb_post : cw_flags;
   cb_nobj_pre : N; cb_nobj_post : N; cb_nfiles_pre : N; cb_nfiles_post : N;
-  cb_globals_same : bool; cb_others_same : bool; cb_rest_same : bool        (* every other tracked entry unchanged *)
+  cb_globals_same : bool; cb_others_same : bool; cb_rest_same : bool;       (* every other tracked entry unchanged *)
+  cb_key : cw_key; cb_tree_pre : cw_ftree; cb_tree_post : cw_ftree; cb_content : option cw_bytes
 }.
+(* the FILES of a create: failure => the tree (names AND contents) is what it was; success => exactly one new
+   file, the target's, every other file untouched, its bytes are the generated configuration.
+   0 ok; 14 a failed create changed the tree; 15 a successful create: not exactly the target's file is new;
+   16 the new file does not hold the generated configuration *)
+Definition cw_orc_files_create (b : cw_cobs) : N :=
+  if cb_ok b then
+    match cw_fget (cb_key b) (cb_tree_pre b), cw_fget (cb_key b) (cb_tree_post b) with
+    | None, Some c =>
+        if cw_ftree_eqb (cw_fremove (cb_key b) (cb_tree_post b)) (cb_tree_pre b)
+        then match cb_content b with Some e => if cw_beq e c then 0 else 16 | None => 0 end
+        else 15
+    | _, _ => 15
+    end
+  else if cw_ftree_eqb (cb_tree_pre b) (cb_tree_post b) then 0 else 14.
 (* verdict codes 0 ok; 10 failure left something behind / changed something; 11 success without a complete object;
-   12 globals or other objects changed *)
+   12 globals or other objects changed; 14-16 see above *)
 Definition cw_orc_create (nc : bool) (b : cw_cobs) : N :=
   if negb (cb_globals_same b && cb_others_same b) then 12
   else if negb (cb_rest_same b) then 10
   else if cb_ok b then
     if fl_obj (cb_post b) && fl_active (cb_post b) && fl_runtime (cb_post b) && fl_file (cb_post b)
        && (nc || fl_item (cb_post b)) && negb (fl_obj (cb_pre b))
-       && (cb_nobj_post b =? cb_nobj_pre b + 1) && (cb_nfiles_post b =? cb_nfiles_pre b + 1) then 0 else 11
+       && (cb_nobj_post b =? cb_nobj_pre b + 1) && (cb_nfiles_post b =? cb_nfiles_pre b + 1) then cw_orc_files_create b else 11
   else
     if cw_flags_eqb (cb_pre b) (cb_post b) && (cb_nobj_post b =? cb_nobj_pre b) && (cb_nfiles_post b =? cb_nfiles_pre b)
-    then 0 else 10.
+    then cw_orc_files_create b else 10.
 
+(* delete: one entry per tracked (type, name): flags before and after, and the objects it refers to
+   (its dependencies, from the request that created it) *)
+Record cw_dent := { de_key : cw_key; de_pre : cw_flags; de_post : cw_flags; de_deps : list cw_key }.
+Definition cw_de_gone (e : cw_dent) : bool := fl_obj (de_pre e) && negb (fl_obj (de_post e)).
+Definition cw_gone_keys (ents : list cw_dent) : list cw_key := map de_key (filter cw_de_gone ents).
 Record cw_dobs := {
-  db_res : cw_res; db_cascade : bool; db_pre : cw_flags; db_post : cw_flags;
-  db_nobj_pre : N; db_nobj_post : N; db_nfiles_pre : N; db_nfiles_post : N;
+  db_res : cw_res; db_cascade : bool; db_key : cw_key; db_ents : list cw_dent;
   db_globals_same : bool; db_others_same : bool;
-  db_nondep_same : bool;      (* every tracked entry that does not depend on the target is unchanged *)
-  db_dep_changed : bool       (* some tracked dependent changed *)
+  db_tree_pre : cw_ftree; db_tree_post : cw_ftree
 }.
-(* 0 ok; 20 refused/failed delete changed something; 21 deleted but object/item/file remains;
-   22 non-runtime object deleted; 23 non-cascading delete touched another object; 12 globals/others *)
+(* the objects that disappeared are EXACTLY the target and its transitive dependents, stated locally:
+   the target is gone; whoever referred to a gone object is gone; whoever is gone is the target or referred to a gone object
+   (on an acyclic reference graph this is the transitive closure) *)
+Definition cw_orc_closure (k : cw_key) (ents : list cw_dent) : bool :=
+  let gone := cw_gone_keys ents in
+  cw_kmem k gone &&
+  forallb (fun e => negb (fl_obj (de_pre e)) || cw_de_gone e || negb (existsb (fun d => cw_kmem d gone) (de_deps e))) ents &&
+  forallb (fun e => negb (cw_de_gone e) || cw_keq k (de_key e) || existsb (fun d => cw_kmem d gone) (de_deps e)) ents.
+(* 0 ok; 20 refused/failed delete changed something (flags or file tree); 21 deleted but object/item/file remains;
+   22 non-runtime object deleted; 23 delete touched an object outside the closure / without cascade another object;
+   24 the files that disappeared are not exactly the files of the deleted objects; 25 cascade: not the closure; 12 globals/others *)
 Definition cw_orc_delete (b : cw_dobs) : N :=
   if negb (db_globals_same b && db_others_same b) then 12
   else match db_res b with
        | CwrOk =>
-           if negb (fl_runtime (db_pre b)) then 22
-           else if fl_obj (db_post b) || fl_item (db_post b) || fl_file (db_post b) then 21
-           else if negb (db_nondep_same b) then 23
-           else if negb (db_cascade b) && (db_dep_changed b || negb (db_nobj_post b + 1 =? db_nobj_pre b) || negb (db_nfiles_post b + 1 =? db_nfiles_pre b)) then 23
+           let gone := cw_gone_keys (db_ents b) in
+           if negb (existsb (fun e => cw_keq (db_key b) (de_key e) && fl_runtime (de_pre e)) (db_ents b)) then 22
+           else if negb (forallb (fun e => negb (cw_de_gone e) || cw_flags_eqb (de_post e) cw_flags_none) (db_ents b)) then 21
+           else if negb (cw_kmem (db_key b) gone) then 21
+           else if negb (forallb (fun e => cw_de_gone e || cw_flags_eqb (de_pre e) (de_post e)) (db_ents b)) then 23
+           else if negb (db_cascade b) && negb (forallb (cw_keq (db_key b)) gone) then 23
+           else if negb (cw_orc_closure (db_key b) (db_ents b)) then 25
+           else if negb (cw_ftree_eqb (db_tree_post b) (filter (fun f => negb (cw_kmem (fst f) gone)) (db_tree_pre b))) then 24
            else 0
        | _ =>
-           if cw_flags_eqb (db_pre b) (db_post b) && db_nondep_same b && negb (db_dep_changed b)
-              && (db_nobj_post b =? db_nobj_pre b) && (db_nfiles_post b =? db_nfiles_pre b) then 0 else 20
+           if forallb (fun e => cw_flags_eqb (de_pre e) (de_post e)) (db_ents b) && cw_ftree_eqb (db_tree_pre b) (db_tree_post b)
+           then 0 else 20
        end.
